@@ -112,6 +112,19 @@ func fmtArg(fr *frame, v value, depth int) interface{} {
 		if x.t == nil {
 			return nil
 		}
+		if depth < 3 && strings.HasSuffix(x.t.String(), "internal/ansi.colorFormatter") {
+			// fmt.Formatter of fq's ansi package: for %s the non-nil elements printed one after the other
+			if arr, ok := x.v.(array); ok {
+				out := ""
+				for _, e := range arr {
+					if ie, ok := e.(iface); ok && ie.t == nil {
+						continue
+					}
+					out += fmt.Sprint(fmtArg(fr, e, depth+1))
+				}
+				return out
+			}
+		}
 		if depth < 3 {
 			if isErrorType(x.t) {
 				if r, ok := callMethod(fr, x, "Error"); ok {
